@@ -257,7 +257,18 @@ func randHistoryOp(r *rng, w *world) string {
 		// recycled by the following operations
 		return fmt.Sprintf("ret:%d", t)
 	}
-	switch r.intn(22) {
+	switch r.intn(24) {
+	case 22:
+		// (arg-reductions answer Int tensors, which cannot take part in the later steps of a float64
+		// history: they are fixed cases below, not history steps)
+		return ""
+	case 23:
+		if len(sh) == 2 {
+			return fmt.Sprintf("trace:%d", t)
+		}
+		if len(sh) >= 1 {
+			return fmt.Sprintf("reducefn:sum:%d:%d", t, r.intn(len(sh)))
+		}
 	case 0, 1:
 		if len(sh) > 0 {
 			// non-empty valid ranges only: tensors born from empty ranges (finding F21) panic in
@@ -524,6 +535,20 @@ func genC19(tier string, r *rng, emit func(string)) {
 	recycleMotifs(emit)
 	intPoolMotifs(emit)
 	refusedProducts(emit)
+	// arg-reductions along every axis (the last one needs no transposition) and flat, the operand and
+	// fresh tensors observed afterwards
+	for _, sh := range []string{"3,4", "2,3,4", "4"} {
+		for _, o := range []string{"max", "min"} {
+			for ax := -1; ax < len(strings.Split(sh, ",")); ax++ {
+				emit(fmt.Sprintf("prog f64 new:rm:%s:3;arg:%s:0:%d;new:rm:6,7:0;new:rm:8,9:0;at:0:0", sh, o, ax))
+			}
+		}
+	}
+	dotNdCases(func(c string) {
+		if strings.HasPrefix(c, "prog f64 ") {
+			emit(c)
+		}
+	})
 	// caller-owned int lists in every order (unsorted, reversed, repeated use of one tensor): axes of
 	// reductions through both spellings, transposition axes, repeat counts, reshape dimensions,
 	// contraction axes - each followed by allocations that would recycle a pooled list
